@@ -41,20 +41,55 @@ def _post(q):
     return d
 
 
-def mkpipe(d):
+def pipedict(d):
     dd = {"transformations": [_item(i) for i in d["items"]],
           "postprocessing": [_post(q) for q in d["post"]],
           "finalizers": [{"type": "concat", "separator": f["sep"], "prefix": f["pre"], "suffix": f["suf"]} for f in d["fin"]],
           "vars": {k: v for k, v in d["vars"]}, "priority": d["prio"]}
     if d["name"] is not None:
         dd["name"] = d["name"]
-    return ProcessingPipeline.from_dict(dd)
+    return dd
+
+
+def mkpipe(d):
+    return ProcessingPipeline.from_dict(pipedict(d))
 
 
 def run_hist(case):
+    import os, tempfile, shutil
+    tmp = tempfile.mkdtemp(prefix="c14files_")
+    cwd = os.getcwd()
+    os.chdir(tmp)          # resolver specs that are file names are relative to this directory
+    try:
+        return _run_hist(case)
+    finally:
+        os.chdir(cwd)
+        shutil.rmtree(tmp, ignore_errors=True)
+
+
+def _run_hist(case):
+    import yaml
     fmt = case["fmt"]
     regs = [mkpipe(d) for d in case["defs"]]
-    resolver = ProcessingPipelineResolver.from_pipeline_list(list(regs))
+    # the resolver table: identifier -> registered object | callable; YAML files are found by path
+    table = {}
+    for ident, ent in case["tab"]:
+        if ent[0] == "obj":
+            table[ident] = regs[ent[1]]
+        elif ent[0] == "call":
+            table[ident] = (lambda d=ent[1]: mkpipe(d))
+        elif ent[0] == "seq":          # a callable with a memory: k-th call -> k-th definition, then the last one
+            def seqcall(ds=ent[1], st=[0]):
+                d = ds[min(st[0], len(ds) - 1)]
+                st[0] += 1
+                return mkpipe(d)
+            table[ident] = seqcall
+        elif ent[0] == "file":
+            with open(ident, "w") as f:
+                f.write(yaml.safe_dump(pipedict(ent[1]), sort_keys=False))
+        else:
+            raise ValueError(ent)
+    resolver = ProcessingPipelineResolver(table)
     bk, outf = mkpipe(case["bk"]), mkpipe(case["of"])
 
     class VBackend(TextQueryTestBackend):
@@ -82,6 +117,8 @@ def run_hist(case):
             regs.append(ev(op[1]))
         elif op[0] == "resolve":
             regs.append(resolver.resolve(list(op[1])))
+        elif op[0] == "sum":
+            regs.append(sum([regs[i] for i in op[1]]))
         elif op[0] == "init":
             b = VBackend(None if op[2] is None else regs[op[2]])
             b.init_processing_pipeline(fmt)
